@@ -13,7 +13,7 @@ pub fn run(ctx: &Ctx) -> i32 {
     let t0 = Instant::now();
     let profiles = static_profiles(wl::ll_profiles());
     let quick = ctx.quick();
-    let ngrammars = ctx.n(260, 6000);
+    let ngrammars = ctx.n(4000, 80000);
     let rep = run_sharded(ctx, "c01", ngrammars, move |rng, i, rep| {
         let p = &profiles[(i as usize) % profiles.len()];
         if let Ok(v) = std::env::var("PV_ONLY") { if v.parse::<u64>().ok() != Some(i) { return; } let g = wl::gen_grammar(&mut rng.clone(), p); eprintln!("CASE {i}\n{}", g.to_par()); }
@@ -27,7 +27,7 @@ pub fn run(ctx: &Ctx) -> i32 {
                 }
                 return;
             }
-            Prep::Panicked(m) => {
+            Prep::Panicked(m, _) => {
                 // a generator panic is C26's subject
                 rep.inconclusive(&format!("generator panicked (C26): {}", truncate(&m, 100)));
                 let _ = par;
@@ -118,6 +118,6 @@ pub fn run(ctx: &Ctx) -> i32 {
         }
     });
     let rule = "case = one generated EBNF grammar (7 LL profiles) accepted by parol's LL(k) pipeline at a drawn K in 1..10, its parser instantiated from the generated source; inputs = all token strings over terminals+foreign up to length 5 (7 thorough, capped) + random sentences up to 60 tokens + mutants; each input parsed with recovery on and off and compared with an Earley recognizer on the grammar as written; non-trivial = accepted grammar with at least one member and one non-member explored; distinct by grammar text";
-    let min = if quick { 25 } else { 300 };
+    let min = if quick { 300 } else { 5000 };
     finish(ctx, rep, rule, (min as f64 * ctx.scale) as u64, json!({}), t0.elapsed().as_secs_f64())
 }
